@@ -414,8 +414,9 @@ func iterator(c *simkit.Choices, x *simkit.Ctx) *simkit.Violation {
 	nh := 1 + c.N(6)
 	sc := &Scenario{Kind: "iterator"}
 	var vals []interface{}
+	related := model.PickRelated(c, nh+1, false) // fold-only types included
 	for i := 0; i <= nh; i++ {
-		te := model.PickType(c, false, false, false) // fold-only types included
+		te := related[i]
 		if i > 0 && c.N(3) == 0 {
 			te = model.TypeByName(sc.Types[c.N(len(sc.Types))]) // re-use of an already compiled type
 		}
@@ -518,8 +519,16 @@ func unfolder(c *simkit.Choices, x *simkit.Ctx) *simkit.Violation {
 		ref bool
 	}
 	var docs []docT
+	uv := 0
+	if c.N(3) == 0 {
+		uv = 1 + c.N(model.NumUnfolderVariants-1) // user-defined unfolders for model.Score
+	}
+	related := model.PickRelated(c, nh+1, true)
 	for i := 0; i <= nh; i++ {
-		te := pickType(c)
+		te := related[i]
+		if i > 0 && c.N(3) == 0 {
+			te = docs[c.N(len(docs))].te // the same type again: cached unfolders
+		}
 		v := te.Gen(c)
 		evs := recordFold(v)
 		if evs == nil {
@@ -546,7 +555,7 @@ func unfolder(c *simkit.Choices, x *simkit.Ctx) *simkit.Violation {
 	var v *simkit.Violation
 	skip := false
 	pi := simkit.Guard(func() {
-		u, err := gotype.NewUnfolder(nil)
+		u, err := gotype.NewUnfolder(nil, model.UnfolderOpts(uv)...)
 		if err != nil {
 			skip = true
 			return
@@ -592,7 +601,7 @@ func unfolder(c *simkit.Choices, x *simkit.Ctx) *simkit.Violation {
 	if pi := simkit.Guard(func() {
 		d := docs[nh]
 		ptr, _, val := d.te.NewTarget()
-		u, err := gotype.NewUnfolder(ptr)
+		u, err := gotype.NewUnfolder(ptr, model.UnfolderOpts(uv)...)
 		if err != nil {
 			ferr = err
 			return
